@@ -52,6 +52,7 @@ inductive Exc where
   | assertionError
   | fileNotFoundError
   | templateNotFound
+  | valueError
   | inner (n : Nat)
   | unmodelled
   deriving DecidableEq, Repr
@@ -143,6 +144,9 @@ structure HistD where
   shape : List Nat
   bin : BinKind
   deriving Repr
+
+/-- number of bins -/
+def HistD.ncells (h : HistD) : Nat := h.shape.foldl (· * ·) 1
 
 /-- the data part of a flow value, as far as the selective elements look at it -/
 inductive Data where
@@ -562,6 +566,20 @@ structure RenderCfg where
   templates : List String
   /-- `select_data` (`none`: the default `_is_csv`) -/
   selectData : Option (Item → Bool)
+  /-- `select_template` given as a callable (`none`: it is the string `defTemplate`); it may raise -/
+  selectTemplate : Option (Item → Except Exc String)
+  /-- `from_data`: render the data part instead of the context -/
+  fromData : Bool
+
+/-- `template.render(data)` with `from_data=True`: jinja2 builds `dict(data)`; the exception it raises -/
+def renderDataErr : Data → Option Exc
+  | .other "dict" _ _ => none
+  | .seq _ [] => none
+  | .seq _ (_ :: _) => some .typeError       -- "cannot convert dictionary update sequence element #0 to a sequence"
+  | .str s => if s == "" then none else some .valueError
+  | .text _ _ _ => some .unmodelled
+  | .graph _ _ => some .unmodelled
+  | _ => some .typeError                     -- "object is not iterable"
 
 /-- `_is_csv(value)` -/
 def isCsv (v : Item) : Bool :=
@@ -574,19 +592,22 @@ def renderSel (cfg : RenderCfg) (v : Item) : Bool :=
   | some f => f v
   | none => isCsv v
 
-/-- the loop body of `RenderLaTeX.run` (`from_data=False`) -/
+/-- the loop body of `RenderLaTeX.run` -/
 def renderStep {σ : Type} (cfg : RenderCfg) (s : σ) (v : Item) : Step σ Item :=
   if renderSel cfg v then
-    -- `_select_template_or_default(val, default)`
     let nameR : Except Exc String :=
-      match getRec v.dict ["output", "template"] with
-      | some t =>
-        if t.truthy then
-          match t with
-          | .str n => .ok n
-          | _ => .error .unmodelled
-        else if cfg.defTemplate == "" then .error .lenaRuntimeError else .ok cfg.defTemplate
-      | none => if cfg.defTemplate == "" then .error .lenaRuntimeError else .ok cfg.defTemplate
+      match cfg.selectTemplate with
+      | some f => f v                          -- a callable `select_template` is used as it is
+      | none =>
+        -- `_select_template_or_default(val, default)`
+        match getRec v.dict ["output", "template"] with
+        | some t =>
+          if t.truthy then
+            match t with
+            | .str n => .ok n
+            | _ => .error .unmodelled
+          else if cfg.defTemplate == "" then .error .lenaRuntimeError else .ok cfg.defTemplate
+        | none => if cfg.defTemplate == "" then .error .lenaRuntimeError else .ok cfg.defTemplate
     match nameR with
     | .error e => ⟨[], s, some e⟩
     | .ok name =>
@@ -595,7 +616,10 @@ def renderStep {σ : Type} (cfg : RenderCfg) (s : σ) (v : Item) : Step σ Item 
         let c := v.ctxOr 0
         let d1 := updPath c.d ["output", "filetype"] (.str "tex")
         let d2 := updPath d1 ["output", "fileext"] (.str "tex")
-        ⟨[mk v 0 (.text "tex" v.tok 0) ⟨c.tok, d2⟩], s, none⟩
+        -- the context is updated before the template is rendered
+        match (if cfg.fromData then renderDataErr v.data else none) with
+        | some e => ⟨[], s, some e⟩
+        | none => ⟨[mk v 0 (.text "tex" v.tok 0) ⟨c.tok, d2⟩], s, none⟩
   else pass s v
 
 /-! ## `PDFToPNG.run` (pdf_to_png.py:78-107) -/
@@ -645,20 +669,51 @@ def graphAllowed (d : Dict) : Bool :=
 /-- histograms whose context does not set `histogram.to_graph` to a false value -/
 def histToGraphSel (v : Item) : Bool := v.data.isHist && graphAllowed v.dict
 
+/-- what `make_value` (a `Variable`) does to a bin -/
+inductive MakeValue where
+  | default     -- the bin content itself
+  | first       -- `lambda b: b[0]`
+  | withErr     -- `lambda b: (b, 1)`
+  deriving DecidableEq, Repr
+
+/-- `HistToGraph(make_value, get_coordinate, field_names, scale)`: the settings that can make
+`hist_to_graph` fail (`get_coordinate` and a numeric `scale` never do) -/
+structure H2GCfg where
+  makeValue : MakeValue
+  nfields : Nat
+  scaleTrue : Bool
+
+/-- the exception `hist_to_graph(hist, …)` raises (hist_functions.py:299-420), if any: `hist.scale()` needs
+numbers; the getter of `make_value` is applied to every bin; every field needs a coordinate -/
+def histToGraphErr (cfg : H2GCfg) (h : HistD) : Option Exc :=
+  if cfg.scaleTrue && h.bin == .hist then some .typeError
+  else if cfg.scaleTrue && h.bin != .num then some .indexError
+  else if cfg.makeValue == .first && (h.bin == .num || h.bin == .hist) then some .typeError
+  else
+    let width : Nat := match cfg.makeValue, h.bin with
+      | .first, _ => 1
+      | .withErr, _ => 2
+      | .default, .vec => 3
+      | .default, .pair => 2
+      | .default, _ => 1
+    if cfg.nfields > h.dim + width then some .lenaValueError else none
+
 /-- the loop body of `HistToGraph.run` -/
-def histToGraphStep {σ : Type} (s : σ) (v : Item) : Step σ Item :=
+def histToGraphStep {σ : Type} (cfg : H2GCfg) (s : σ) (v : Item) : Step σ Item :=
   let c := v.ctxOr 0
   if !v.data.isHist || !graphAllowed c.d then pass s v
   else
-    -- `update_nested("value", context, bin_context)`
-    ⟨[mk v 0 (.graph v.tok (match v.data with
-        | .hist h => h.shape.foldl (· * ·) 1
-        | _ => 0)) ⟨c.tok, setKey c.d "value" (.opaque "value")⟩], s, none⟩
+    match v.data with
+    | .hist h =>
+      match histToGraphErr cfg h with
+      | some e => ⟨[], s, some e⟩
+      | none =>
+        -- `update_nested("value", context, bin_context)`
+        ⟨[mk v 0 (.graph v.tok h.ncells) ⟨c.tok, setKey c.d "value" (.opaque "value")⟩], s, none⟩
+    | _ => pass s v        -- unreachable: `isHist`
 
 /-! ## bins of a histogram -/
 
-/-- number of bins -/
-def HistD.ncells (h : HistD) : Nat := h.shape.foldl (· * ·) 1
 
 /-- the content of bin number `i` (row-major) of the histogram held by `v`, as a flow value -/
 def cell (v : Item) (h : HistD) (i : Nat) : Item :=
@@ -1031,6 +1086,146 @@ def pdfRun (overwrite : Bool) (sch : Sched) (fs : FS) (xs : List Item) : PdfRun 
 
 def PdfRun.out (r : PdfRun) : List Emit := r.blocks.flatten ++ r.tail
 
+/-! ## Loops that yield more after the flow: `GroupPlots.run` (group_plots.py:330-358)
+
+`for val in flow: <body>` followed by `for … in <state>: yield …`.  `GroupPlots` (deprecated since 0.6 but
+part of the anchored file) passes what it does not select, collects the selected values into groups and
+yields one `group_plots(grp)` per group after the flow. -/
+
+/-- a run with values yielded after the flow was exhausted -/
+structure TRun (σ α : Type) where
+  blocks : List (List α)
+  tail : List α
+  st : σ
+  err : Option Exc
+
+/-- `for val in flow: <f>` and then `<fin>` (not reached when the loop raised) -/
+def loopTail {σ α β : Type} (f : σ → α → Step σ β) (fin : σ → Step σ β) (s : σ) (xs : List α) : TRun σ β :=
+  let r := loop f s xs
+  match r.err with
+  | some e => ⟨r.blocks, [], r.st, some e⟩
+  | none =>
+    let t := fin r.st
+    ⟨r.blocks, t.out, t.st, t.err⟩
+
+def TRun.out {σ α : Type} (r : TRun σ α) : List α := r.blocks.flatten ++ r.tail
+
+/-- data that `copy.deepcopy` returns as the very same object (atomic or immutable all the way down) -/
+def Data.immLeaf : Data → Bool
+  | .int _ => true
+  | .str _ => true
+  | .text _ _ _ => true
+  | .other cls _ _ => cls == "NoneType" || cls == "float" || cls == "bytes"
+  | _ => false
+
+/-- `copy.deepcopy(val)`: a bare immutable value is returned itself, anything else is a new object (a pair
+gets a new tuple and a new context dictionary) -/
+def deepcopyItem (v : Item) : Item :=
+  match v.ctx with
+  | some c => ⟨.made v.tok 0, v.data, some ⟨.made v.tok 1, c.d⟩⟩
+  | none =>
+    if v.data.immLeaf || (match v.data with
+        | .seq true items => items.all Data.immLeaf
+        | _ => false) then v
+    else ⟨.made v.tok 0, v.data, none⟩
+
+structure GPCfg where
+  /-- `select` (`None` selects everything) -/
+  select : Item → Bool
+  /-- `group_by` given as a callable; it may raise -/
+  key : Item → Except Exc String
+  yieldSelected : Bool
+
+/-- the groups: key ↦ members, in the order of first appearance (a Python dict) -/
+abbrev Groups := List (String × List Item)
+
+/-- `groups[key].append(val)` / `groups[key] = [val]` -/
+def addToGroup : Groups → String → Item → Groups
+  | [], k, v => [(k, [v])]
+  | (k', vs) :: r, k, v => if k' = k then (k', vs ++ [v]) :: r else (k', vs) :: addToGroup r k v
+
+/-- the loop body of `GroupPlots.run` -/
+def groupPlotsStep (cfg : GPCfg) (g : Groups) (v : Item) : Step Groups Item :=
+  if cfg.select v then
+    let ys := if cfg.yieldSelected then [deepcopyItem v] else []
+    match cfg.key v with
+    | .error e => ⟨ys, g, some e⟩
+    | .ok k => ⟨ys, addToGroup g k v, none⟩
+  else pass g v
+
+/-- `group_plots(grp)` (group_plots.py:218-242): the data parts, and a new context — the intersection of the
+members' contexts (not interpreted here) with `output.changed = any(member's output.changed)` and
+`group` = the members' contexts -/
+def groupPlots (grp : List Item) : Item :=
+  let changed := grp.any (fun v => match getRec v.dict ["output", "changed"] with
+    | some x => x.truthy
+    | none => false)
+  let t : Tok := match grp with
+    | v :: _ => .made v.tok 700
+    | [] => .src 0
+  ⟨t, .seq false (grp.map (·.data)),
+    some ⟨.made t 1, [("output", .dict [("changed", .bool changed)]), ("group", .opaque "group")]⟩⟩
+
+/-- after the flow: one group value per key (no `scale`, empty `transform`) -/
+def groupPlotsFin (g : Groups) : Step Groups Item := ⟨g.map (fun kv => groupPlots kv.2), g, none⟩
+
+def groupPlotsRun (cfg : GPCfg) : Groups → List Item → TRun Groups Item :=
+  loopTail (groupPlotsStep cfg) groupPlotsFin
+
+/-! ## Aliasing: when flow values share context objects (the locality hypothesis)
+
+Everything above passes values: a step sees the context its value was built with.  Python passes references:
+if two flow values hold the *same* context dictionary (or the same value occurs twice), a mutation made while
+one is processed is seen when the other is processed — and in the values already yielded.  `sharedStep` adds
+that: a heap maps the identity of a context object to its current content; a value is refreshed from the heap
+before it is processed, and the contexts of what is yielded are written back.  `Local` flows (all identities
+different) behave the same in both semantics (`Props/C10.lean`, `shared_eq_loop_of_local`); flows that are
+not `Local` do not satisfy the property (`example`s there, and the harness's aliasing cases). -/
+
+abbrev Heap := List (Tok × Dict)
+
+def Heap.get : Heap → Tok → Option Dict
+  | [], _ => none
+  | (t, d) :: r, k => if t = k then some d else Heap.get r k
+
+def Heap.set : Heap → Tok → Dict → Heap
+  | [], k, d => [(k, d)]
+  | (t, d') :: r, k, d => if t = k then (t, d) :: r else (t, d') :: Heap.set r k d
+
+/-- the value as the program sees it now: its context object with the current content -/
+def Item.refresh (h : Heap) (v : Item) : Item :=
+  match v.ctx with
+  | some c =>
+    match h.get c.tok with
+    | some d => { v with ctx := some ⟨c.tok, d⟩ }
+    | none => v
+  | none => v
+
+/-- the contexts of yielded values are (possibly mutated) objects: remember their content -/
+def Heap.record (h : Heap) (outs : List Item) : Heap :=
+  outs.foldl (fun h y => match y.ctx with
+    | some c => h.set c.tok c.d
+    | none => h) h
+
+/-- the loop body `f` under reference semantics -/
+def sharedStep {σ : Type} (f : σ → Item → Step σ Item) (sh : σ × Heap) (v : Item) : Step (σ × Heap) Item :=
+  let r := f sh.1 (v.refresh sh.2)
+  ⟨r.out, (r.st, sh.2.record r.out), r.err⟩
+
+/-- what an observer holding the yielded values sees after the run -/
+def finalView (h : Heap) (blocks : List (List Item)) : List (List Item) := blocks.map (·.map (Item.refresh h))
+
+/-- the identities (value, context) occurring in a flow -/
+def valueToks (xs : List Item) : List Tok := xs.map (·.tok)
+def ctxToks (xs : List Item) : List Tok := xs.filterMap (fun v => v.ctx.map (·.tok))
+
+/-- executable form of `Local` (`Props/C10.lean`): all flow values are source objects with contexts of their own -/
+def localB (xs : List Item) : Bool :=
+  decide (ctxToks xs).Nodup &&
+  (ctxToks xs).all (fun t => match t with
+    | .src _ => true
+    | .made _ _ => false)
+
 /-! ## `LaTeXToPDF`: the timing-free description (reference notions of the theorems)
 
 What is produced for the selected values is, as a multiset, `pdfSpec`: decide for every selected value
@@ -1116,7 +1311,7 @@ def toCSVRun {σ : Type} (cfg : CsvCfg) : σ → List Item → Run σ Item := lo
 def writeRun (cfg : WriteCfg) : FS → List Item → Run FS Item := loop (writeStep cfg)
 def renderRun {σ : Type} (cfg : RenderCfg) : σ → List Item → Run σ Item := loop (renderStep cfg)
 def pngRun (cfg : PngCfg) : FS → List Item → Run FS Item := loop (pngStep cfg)
-def histToGraphRun {σ : Type} : σ → List Item → Run σ Item := loop histToGraphStep
+def histToGraphRun {σ : Type} (cfg : H2GCfg) : σ → List Item → Run σ Item := loop (histToGraphStep cfg)
 def iterateBinsRun {σ : Type} (sb : BinKind → Bool) : σ → List Item → Run σ Item := loop (iterateBinsStep sb)
 def mapBinsRun {σ : Type} (sb : BinKind → Bool) (inner : Item → CellRes) (dropCtx : Bool) :
     σ → List Item → Run σ Item := loop (mapBinsStep sb inner dropCtx)
